@@ -7,7 +7,5 @@ CONSTANTS
   MaxWithRename = 1
   Spares = {"none", "twin"}
   Embeds = {"none"}
-INVARIANT NeverValid
-INVARIANT NeverInvalid
-INVARIANT NeverLoadError
+INVARIANT NeverChanges
 CHECK_DEADLOCK FALSE
